@@ -4,3 +4,4 @@ pub mod listing;
 pub mod loader;
 pub mod escape;
 pub mod loop_script;
+pub mod tables;
